@@ -69,7 +69,7 @@ def run(ctx):
     if {"regions", "done"} - {case["phase"] for case in cases}:
         raise MachineryError("vacuous model run: no state with regions / with a late gene")
     enumerated = len(cases)
-    for _ in range(800 if ctx.quick else 30000):
+    for _ in range(800 if ctx.quick else 60000):
         uni = persist.random_universe(rng)
         cases.append({"uni": uni, "hist": persist.pipeline_history(rng, uni), "seed": 1000 + ctx.seed, "sampled": True})
     for idx, case in enumerate(cases):
